@@ -5,6 +5,7 @@
   from the regenerated `Gen.configFields`, so a reordering of Config is followed automatically.
 -/
 import SonicSpec.Model.BindStream
+import SonicSpec.Model.BindDom
 import SonicSpec.Generated.Opts
 namespace SonicSpec.Driver.Bind
 open SonicSpec SonicSpec.Go SonicSpec.Bind
@@ -17,7 +18,7 @@ def cfgBit (bits : Nat) (name : String) : Bool :=
 def optsOf (bits : Nat) : DecOpts :=
   { useNumber := cfgBit bits "UseNumber", useInt64 := cfgBit bits "UseInt64",
     disallowUnknown := cfgBit bits "DisallowUnknownFields", caseSensitive := cfgBit bits "CaseSensitive",
-    validateString := cfgBit bits "ValidateString" }
+    validateString := cfgBit bits "ValidateString", copyString := cfgBit bits "CopyString" }
 
 def hasSub (s sub : String) : Bool := (s.splitOn sub).length > 1
 
@@ -89,6 +90,16 @@ def run (cfg tstr h : String) : Option String := do
       | .ok (v, some e) => s!"stream={e.toString}\tsval={valToString v}"
     let st := st ++ s!"\tstruct={if Stream.structuralDoc false doc then 1 else 0}\temptyst={if hasEmptyStruct T then 1 else 0}"
     let st := st ++ numFlags
+    -- the two-phase model of the alternative decoder AS IT IS (quirks on): what the optdec workers are held against
+    let st := st ++ (match Opt.decodeFull .real o T doc with
+      | (v, none) => s!"\tomodel=ok\toval={valToString v}"
+      | (_, some .outside) => "\tomodel=unsupported"
+      | (v, some e) => s!"\tomodel={e.toString}\toval={valToString v}")
+    -- ... and with the fastmap path of the interface{} decoder (SONIC_USE_FASTMAP=1)
+    let st := st ++ (match Opt.decodeFull .realFastmap o T doc with
+      | (v, none) => s!"\tfmodel=ok\tfval={valToString v}"
+      | (_, some .outside) => "\tfmodel=unsupported"
+      | (v, some e) => s!"\tfmodel={e.toString}\tfval={valToString v}")
     match parseRDoc doc with
     | none => return s!"model=syntax\tval={valToString (zeroOf T)}\t{st}"
     | some j =>
